@@ -900,10 +900,10 @@ func (fr *frame) callUnknownFuncValue(st *State, call *ast.CallExpr, fv *Value) 
 			}
 		}
 	}
-	// parameter of function type with contract attached to the enclosing contract: "param:<name>"
-	if id, ok := unparen(call.Fun).(*ast.Ident); ok && fr.contract != nil {
-		if c := fr.contract.Closures[-paramIndex(fr, id.Name)-1]; c != nil {
-			return fr.applyContractSig(st, call, "param:"+id.Name, sig, fr.pkg, c, fv, args)
+	// parameter / local of function type: contract keyed "<enclosing function key>#<name>"
+	if id, ok := unparen(call.Fun).(*ast.Ident); ok && fr.fn != nil {
+		if c := fc.reg.contracts[funcKey(fr.fn.Origin())+"#"+id.Name]; c != nil {
+			return fr.applyContractSig(st, call, id.Name, sig, fr.pkg, c, fv, args)
 		}
 	}
 	panic(unsupported("call of unknown function value " + exprString(call.Fun)))
